@@ -1,5 +1,5 @@
 (* C14 correspondence cases: input together with what the implementation answered *)
-From FB Require Export C14.Model C14.Model2 Base.Run.
+From FB Require Export C14.Model C14.Model2 C14.Model3 Base.Run.
 
 Definition kind_eqb (a b : nkind) : bool :=
   match a, b with KAnon, KAnon | KInner, KInner | KLocal, KLocal => true | _, _ => false end.
@@ -25,6 +25,11 @@ Definition out_class_eqb (a b : out_class) : bool :=
   let '(an, ai, ae) := a in let '(bn, bi, be) := b in
   str_eqb an bn && opt_eqb inner_entry_eqb ai bi && opt_eqb encl_entry_eqb ae be.
 
+Definition header_eqb (a b : header) : bool :=
+  N.eqb (fst (h_version a)) (fst (h_version b)) && N.eqb (snd (h_version a)) (snd (h_version b))
+  && N.eqb (h_access a) (h_access b) && str_eqb (h_name a) (h_name b) && opt_eqb str_eqb (h_super a) (h_super b)
+  && list_eqb str_eqb (h_interfaces a) (h_interfaces b) && Nat.eqb (h_fields a) (h_fields b) && Nat.eqb (h_methods a) (h_methods b).
+
 Inductive case :=
 | CApply (T : table) (M : mappings) (r : outcome mappings)     (* apply_nests_to_mappings, IndexMap order *)
 | CUndo (T : table) (M : mappings) (r : outcome mappings)      (* undo_nests_to_mappings *)
@@ -39,7 +44,11 @@ Inductive case :=
   (* the remapper nest_jar hands to dukebox::remap, observed through the class constants of a probe
      class (checkcast / anewarray operands: object names, array names, primitive arrays, unlisted
      classes) after nest_jar(remap = true) *)
-| CLiteral (T : table) (ok : bool).
+| CLiteral (T : table) (ok : bool)
+| CCreated (remap : bool) (vs : list version) (J : jar) (T : table) (r : res (list header)).
+  (* round 7: the classes nest_jar creates for missing enclosing classes — vs = (major, minor) of the classes of J in
+     entry order; r = the headers (version, access flags, name, super class, interfaces, number of fields and methods)
+     of the first |output| - |input| class entries of the output, read back by the independent parser *)
   (* nest_jar: per output class (entry order) its name, the InnerClasses entry appended for it and
      its EnclosingMethod, as read back by the independent class-file parser *)
 
@@ -60,4 +69,5 @@ Definition check (c : case) : bool :=
   | CLiteral T ok =>
       (* the literal depth-counter transcription against what MyRemapper::new answered (undo on empty mappings) *)
       Bool.eqb (is_ok (translation_lit (length T + 2) T)) ok && Bool.eqb (is_ok (translation T)) ok
+  | CCreated rm vs J T r => res_eqb (list_eqb header_eqb) (nest_jar_created rm vs J T) r
   end.
